@@ -270,8 +270,8 @@ class Dispatcher:
             moduleobj = self.secnode.get_module(modulename)
             if exportedname is not None:
                 pname = moduleobj.accessiblename2attr.get(exportedname, True)
-                if pname and pname not in moduleobj.accessibles:
-                    # what if we try to subscribe a command here ???
+                if pname and pname not in moduleobj.parameters:
+                    # this refuses also the name of a command
                     raise NoSuchParameterError(f'Module {modulename!r} has no parameter {pname!r}')
                 modules = [(modulename, pname)]
             else:
